@@ -99,7 +99,7 @@ func EthOption(ethCap, tokCap int64) *ethchain.ChainDriverOption {
 // extTx is one external (Ethereum-side) transaction prepared by the generator.
 type extTx struct {
 	Kind   int // 1 lock, 2 redeem, 3 lockERC, 4 redeemERC (data/ethereum ProcessType)
-	Pre    int // 0 well formed, 1 not decodable, 2 wrong call data / unlisted token, 3 wrong contract address
+	Pre    int // 0 well formed, 1 not decodable, 2 wrong call data / unlisted token, 3 wrong contract address / receiver, 9 selector missing
 	Raw    []byte
 	NameB  common.Hash
 	Amount *big.Int
@@ -138,9 +138,16 @@ func buildExt(seed uint64, nonce uint64, kind, pre int, amount *big.Int, toTok b
 	case 2:
 		to, value = ethContractAddr, big.NewInt(10)
 		data, err = ethABIs.lr.Pack("redeem", amount)
+		if pre == 9 {
+			data, err = ethABIs.lr.Pack("lock") // no redeem selector in the payload
+		}
 	case 3:
 		to = ethTokenAddr
-		data, err = ethABIs.erc20.Pack("transfer", ethERCAddr, amount)
+		recv := ethERCAddr
+		if pre == 3 {
+			recv = ethOtherAddr // the transfer does not go to the ERC lock contract
+		}
+		data, err = ethABIs.erc20.Pack("transfer", recv, amount)
 		if pre == 2 {
 			to = ethOtherAddr
 		}
@@ -154,6 +161,9 @@ func buildExt(seed uint64, nonce uint64, kind, pre int, amount *big.Int, toTok b
 			tok = ethOtherAddr
 		}
 		data, err = ethABIs.lrerc.Pack("redeem", amount, tok)
+		if pre == 9 {
+			data, err = ethABIs.lr.Pack("lock")
+		}
 	}
 	if err != nil {
 		panic(err)
@@ -551,6 +561,9 @@ func (e *ethRun) genSubmit(v *ethView) *ethOp {
 			if kind == 4 && e.r.Intn(10) == 0 {
 				pre = 2
 			}
+			if e.r.Intn(12) == 0 {
+				pre = 9
+			}
 		}
 	}
 	if kind == 1 || kind == 3 {
@@ -561,9 +574,7 @@ func (e *ethRun) genSubmit(v *ethView) *ethOp {
 		case 1:
 			pre = 2
 		case 2:
-			if kind == 1 {
-				pre = 3 // (ERC20: a wrong receiver dereferences a nil error: a crash input, C18)
-			}
+			pre = 3 // wrong contract (ETH) / wrong transfer receiver (ERC20; refused since 11ae9db)
 		}
 	}
 	e.nonce++
@@ -721,6 +732,10 @@ func ethReason(kind, log string) string {
 		return "burn-failed"
 	case has("unable to mint tokens"):
 		return "mint-failed"
+	case has("To field of Transaction does not match"):
+		return "receiver"
+	case has("invalid external tx"):
+		return "parse"
 	case has("decode eth txn"):
 		return "decode"
 	case has("Bytes data does not match"):
@@ -1176,8 +1191,9 @@ func (e *ethRun) monitorTx(op *ethOp, code uint32, pre, post *ethView) {
 	}
 }
 
-// monitorEnd checks the block-end transitions: Released -> passed store, Failed -> failed store,
-// nothing else moves, no value moves.
+// monitorEnd checks the block-end transitions: every visited (committed) Released tracker is moved
+// to the passed store and every visited Failed one to the failed store, nothing else moves, no
+// value moves.
 func (e *ethRun) monitorEnd(pre, post *ethView, iterated map[string]bool) {
 	if d := balDelta(pre, post); len(d) != 0 {
 		e.hit("wrapped-balance-changed-at-block-end", deltaText(d))
@@ -1328,9 +1344,7 @@ func scSubmit(kind int, acct int, amount int64) func(e *ethRun, v *ethView) *eth
 }
 
 func scResubmit(ext int, acct int) func(e *ethRun, v *ethView) *ethOp {
-	return func(e *ethRun, v *ethView) *ethOp {
-		return e.submitOp(e.exts[ext], e.w.Accts[acct], "scripted-duplicate")
-	}
+	return func(e *ethRun, v *ethView) *ethOp { return e.submitOp(e.exts[ext], e.w.Accts[acct], "scripted-duplicate") }
 }
 
 // scReport: witness `wit` reports on external transaction `ext`, naming account `locker`
@@ -1459,6 +1473,13 @@ func runEthHistory(opt EthOptions, c int, r *rng.R, res *Result, scn *ethScenari
 	sim := NewSim(w)
 	for bi := 0; bi < nBlocks && !e.stop; bi++ {
 		e.commit = A.DumpMap()
+		if scn == nil && nW > 0 && r.Intn(6) == 0 {
+			// the node's witness role changes as it does at a restart: its job store then lacks the
+			// jobs of the trackers in flight (the block end must not depend on it: 7ff9062)
+			A.IsWitness = !A.IsWitness
+			e.hl.Add("node witness role -> %v", A.IsWitness)
+			res.Counters["witness_role_flips"]++
+		}
 		b := sim.NextBlock(nil, BlockOpts{DtSeconds: int64(1 + r.Intn(5))})
 		A.SaveBlock(b)
 		A.BeginBlock(b)
@@ -1498,6 +1519,8 @@ func runEthHistory(opt EthOptions, c int, r *rng.R, res *Result, scn *ethScenari
 		if err != nil {
 			return nil, false, err
 		}
+		// doEthTransitions visits the trackers whose key is in the committed tree (State.IterateRange
+		// enumerates committed keys only) and is not deleted in the block cache
 		iter := map[string]bool{}
 		var names []*big.Int
 		for k := range e.commit {
@@ -1518,7 +1541,7 @@ func runEthHistory(opt EthOptions, c int, r *rng.R, res *Result, scn *ethScenari
 		if len(ns) > 0 {
 			nt = strings.Join(ns, ",")
 		}
-		line := fmt.Sprintf("end %s ON=%s PA=%s FA=%s B=- N=%s J=-", e.cfgText(), storeText(pre.Store[0], nil), storeText(pre.Store[1], nil), storeText(pre.Store[2], nil), nt)
+		line := fmt.Sprintf("end %s ON=%s PA=%s FA=%s B=- N=%s", e.cfgText(), storeText(pre.Store[0], nil), storeText(pre.Store[1], nil), storeText(pre.Store[2], nil), nt)
 		logOff := appLogSize()
 		eb := A.EndBlock(b.Height)
 		if os.Getenv("OLH_ETH_DEBUG") != "" {
